@@ -804,7 +804,11 @@ class Audit:
                         parts.append(H.render(x))
             self._rtxt[fn] = "\n".join(parts)
         for r in reqs:
-            if r not in self._rtxt[fn]:
+            if r.startswith("rx:"):
+                # a guard named by shape (local names are placeholders): regular expression over the rendering
+                if not re.search(r[3:], self._rtxt[fn], re.S):
+                    return r
+            elif r not in self._rtxt[fn]:
                 return r
         return None
 
